@@ -38,6 +38,15 @@ func vpTransferEnv() (*vpEnv, int) {
 		env = vpServer(fs, ExportOptions{})
 		env.nfs.UpdateTuningOptions(func(t *TuningOptions) { t.TransferSize = ts })
 		vpReach("runtime")
+		// ... possibly followed by an update that leaves the field zero (an ExportOptions literal
+		// that does not name it): the construction default is then in force
+		if vpBool("then-left-zero") {
+			o := env.nfs.GetExportOptions()
+			o.TransferSize = 0
+			vpAssert(env.nfs.UpdateExportOptions(o) == nil, "update-accepted")
+			ts = 65536
+			vpReach("runtime-zero")
+		}
 	} else {
 		env = vpServer(fs, ExportOptions{TransferSize: ts})
 		vpReach("construction")
